@@ -9,6 +9,8 @@ import (
 	"bufio"
 	"bytes"
 	"encoding/json"
+	"io/ioutil"
+	"log"
 	"os"
 	"sync"
 	"time"
@@ -40,9 +42,10 @@ type shOp struct {
 	Emap  map[string]string `json:"emap"`
 	Cmd   string            `json:"cmd"`
 	Args  shSlice           `json:"args"`
-	A     shSlice           `json:"a"`
-	B     shSlice           `json:"b"`
-	Reps  int               `json:"reps"`
+	A      shSlice   `json:"a"`
+	B      shSlice   `json:"b"`
+	Extras []shSlice `json:"extras"` // par: one call per entry, all at once (default: a, b)
+	Reps   int       `json:"reps"`
 }
 
 type shReq struct {
@@ -57,10 +60,8 @@ type shReq struct {
 
 type shRep struct {
 	Lines [][]string `json:"lines"`
-	OutA  *string    `json:"out_a"`
-	OutB  *string    `json:"out_b"`
-	ErrA  string     `json:"err_a"`
-	ErrB  string     `json:"err_b"`
+	Outs  []*string  `json:"outs"`
+	Errs  []string   `json:"errs"`
 	Snap  [][]string `json:"snap"`
 }
 
@@ -142,7 +143,7 @@ func init() {
 		if err := json.Unmarshal(r.Raw, &q); err != nil {
 			return shRes{Error: err.Error()}
 		}
-		internal := []string{"VERIF_ARGV_OUT", "VERIF_ARGV_GATE", "VERIF_ARGV_PRINT", "MAGEFILE_VERBOSE"}
+		internal := []string{"VERIF_ARGV_OUT", "VERIF_ARGV_GATE", "VERIF_ARGV_PRINT", "MAGEFILE_VERBOSE", "MAGEFILE_DEBUG"}
 		for _, k := range append(append([]string{}, q.Clear...), internal...) {
 			os.Unsetenv(k)
 		}
@@ -158,6 +159,16 @@ func init() {
 		}
 		os.Setenv("VERIF_ARGV_OUT", q.OutFile)
 		os.Setenv("VERIF_ARGV_PRINT", "1")
+		// verbose mode (MAGEFILE_VERBOSE is an ordinary variable of the history) sends the child's
+		// stdout to os.Stdout and logs "exec: ..." through package log: both are discarded here,
+		// our own stdout is the answer channel (its writer holds the original file)
+		log.SetOutput(ioutil.Discard)
+		defer log.SetOutput(os.Stderr)
+		if null, err := os.OpenFile(os.DevNull, os.O_WRONLY, 0); err == nil {
+			old := os.Stdout
+			os.Stdout = null
+			defer func() { os.Stdout = old; null.Close() }()
+		}
 
 		arrays := q.Arrays
 		closures := make([]shFn, len(q.Closures))
@@ -228,18 +239,29 @@ func init() {
 				for rep := 0; rep < o.Reps; rep++ {
 					os.Remove(q.Gate)
 					os.Truncate(q.OutFile, 0)
-					a, b := shMk(arrays, o.A), shMk(arrays, o.B)
+					specs := o.Extras
+					if len(specs) == 0 {
+						specs = []shSlice{o.A, o.B}
+					}
+					n := len(specs)
 					var rp shRep
-					var ea, eb error
+					rp.Outs = make([]*string, n)
+					errs := make([]error, n)
 					start := make(chan struct{})
 					var wg sync.WaitGroup
-					wg.Add(2)
-					go func() { defer wg.Done(); <-start; rp.OutA, ea = closures[o.C](a...) }()
-					go func() { defer wg.Done(); <-start; rp.OutB, eb = closures[o.C](b...) }()
+					wg.Add(n)
+					for gi := 0; gi < n; gi++ {
+						extra := shMk(arrays, specs[gi])
+						go func(gi int, extra []string) {
+							defer wg.Done()
+							<-start
+							rp.Outs[gi], errs[gi] = closures[o.C](extra...)
+						}(gi, extra)
+					}
 					close(start)
 					done := make(chan struct{})
 					go func() { wg.Wait(); close(done) }()
-					// both children are running (each has reported its argv) -> open the gate
+					// all children are running (each has reported its argv) -> open the gate
 					deadline := time.Now().Add(5 * time.Second)
 				wait:
 					for time.Now().Before(deadline) {
@@ -248,7 +270,7 @@ func init() {
 							break wait
 						default:
 						}
-						if len(shLines(q.OutFile)) >= 2 {
+						if len(shLines(q.OutFile)) >= n {
 							break
 						}
 						time.Sleep(300 * time.Microsecond)
@@ -257,7 +279,10 @@ func init() {
 						f.Close()
 					}
 					<-done
-					rp.ErrA, rp.ErrB = errStr(ea), errStr(eb)
+					rp.Errs = make([]string, n)
+					for gi := range errs {
+						rp.Errs[gi] = errStr(errs[gi])
+					}
 					rp.Lines = shLines(q.OutFile)
 					rp.Snap = shSnap(arrays)
 					ob.Reps = append(ob.Reps, rp)
